@@ -345,19 +345,24 @@ def run_case(ctx, case):
                lambda: gin.configurable('a..b')(other), lambda: gin.register('a/b')(other),
                # an explicitly given empty name is an invalid name, not "no name given"
                lambda: gin.register('')(other), lambda: gin.configurable('')(other), lambda: gin.external_configurable(other, name=''),
-               lambda: gin.register('', module='c13')(other)]
+               lambda: gin.register('', module='c13')(other),
+               # a trailing newline does not belong to a name
+               lambda: gin.register('abc\n')(other), lambda: gin.configurable('ok' + base + '\n', module='c13')(other), lambda: gin.external_configurable(other, name='a.b\n')]
     elif rej == 'invalid-module':
       tries = [lambda: gin.register('okname' + base, module='bad module')(other), lambda: gin.external_configurable(other, module='a..b'),
                lambda: gin.configurable(module='1x')(other),
                # a dotted name together with an invalid module
                lambda: gin.register('pkg.okname' + base, module='not a module')(other), lambda: gin.external_configurable(other, name='pkg.ok' + base, module='a..b'),
-               lambda: gin.configurable('pkg.ok' + base, module='1abc')(other)]
+               lambda: gin.configurable('pkg.ok' + base, module='1abc')(other),
+               lambda: gin.register('nl' + base, module='mod\n')(other), lambda: gin.external_configurable(other, name='nl' + base, module='a.b\n')]
       # ... applied to a class (its constructor must not have been replaced) that has a Gin-registered method (which must stay registered)
       mcls = make_original('cls-methods', 'IM' + base)[0]
       msel = 'vfc13mod.meth_IM' + base
       ctor_before = (mcls.__dict__.get('__init__'), mcls.__dict__.get('__new__'))
       for label, reg in (('configurable', lambda: gin.configurable('pkg.im' + base, module='a..b')(mcls)), ('register', lambda: gin.register('pkg.im' + base, module='not a module')(mcls)),
-                         ('external_configurable', lambda: gin.external_configurable(mcls, name='pkg.im' + base, module='1abc'))):
+                         ('external_configurable', lambda: gin.external_configurable(mcls, name='pkg.im' + base, module='1abc')),
+                         ('configurable (module ends in a newline)', lambda: gin.configurable('im' + base, module='mod\n')(mcls)),
+                         ('register (module ends in a newline)', lambda: gin.register('im' + base, module='mod\n')(mcls))):
         try:
           reg()
           ctx.check(False, 'bad-registration-accepted', '%s of a class under a dotted name with an invalid module succeeded' % label)
